@@ -47,6 +47,31 @@ var goastWhitelist = []gaKernel{
 	{"pkg/diff", "iterate.go", "findOverlappingBlocks"},
 	{"pkg/slice", "slice.go", "KeyIndices"},
 	{"pkg/encoding/packfile", "packfile.go", "encodeObjTypeAndLen"},
+	{"pkg/prune", "prune.go", "childrenFirst"},
+}
+
+// Outside-world functions ([SOracle] of lib/GoLang.v): calls whose result comes from the store.
+// The semantics is the oracle of the program, over which the theorems quantify.  A returned
+// struct is the list of the fields the translated code may read, in the order given here.
+type gaOracle struct {
+	importPath string   // package of the function
+	name       string   // function name
+	params     []string // parameter types; "objects.Store" arguments are dropped
+	results    []string
+}
+
+var gaOracles = []gaOracle{
+	{gaModule + "pkg/objects", "GetCommit", []string{"objects.Store", "[]uint8"}, []string{"struct:objects.Commit", "error"}},
+}
+
+// fields of oracle-returned structs: type -> field -> (index, type)
+type gaField struct {
+	idx int
+	typ string
+}
+
+var gaStructs = map[string]map[string]gaField{
+	"struct:objects.Commit": {"Parents": {0, "[][]uint8"}},
 }
 
 const gaModule = "github.com/wrgl/wrgl/"
@@ -150,6 +175,14 @@ func gaTypeStr(e ast.Expr) string {
 		if st, ok := t.Value.(*ast.StructType); ok && (st.Fields == nil || len(st.Fields.List) == 0) {
 			if k := gaTypeStr(t.Key); gaIsInt(k) {
 				return "set[" + k + "]"
+			}
+			if gaTypeStr(t.Key) == "string" {
+				return "map[string]struct{}"
+			}
+		}
+		if gaTypeStr(t.Key) == "string" {
+			if v := gaTypeStr(t.Value); v != "?" && !strings.HasPrefix(v, "map[") {
+				return "map[string]" + v
 			}
 		}
 	}
@@ -458,6 +491,13 @@ func (t *gaTr) expr(e ast.Expr) (string, string) {
 				return "(EInt " + gaZ(c) + " (*" + x.Sel.Name + "*))", "untyped"
 			}
 		}
+		if id, ok := x.X.(*ast.Ident); ok {
+			if v := t.lookup(id.Name); v != nil {
+				if f, ok := gaStructs[v.typ][x.Sel.Name]; ok {
+					return fmt.Sprintf("(EIndex %s (EInt %d) (*.%s*))", t.evar(v), f.idx, x.Sel.Name), f.typ
+				}
+			}
+		}
 		return gaUnsE("selector " + gaSrc(x)), "?"
 	case *ast.StarExpr:
 		if id, ok := x.X.(*ast.Ident); ok {
@@ -505,8 +545,14 @@ func (t *gaTr) expr(e ast.Expr) (string, string) {
 	case *ast.IndexExpr:
 		ca, ta := t.expr(x.X)
 		ci, ti := t.expr(x.Index)
-		if _, ok := gaKind(ti); !ok && ti != "untyped" {
+		if _, ok := gaKind(ti); !ok && ti != "untyped" && !strings.HasPrefix(ta, "map[string]") {
 			return gaUnsE("index of type " + ti), "?"
+		}
+		if strings.HasPrefix(ta, "map[string]") {
+			if ti != "string" {
+				return gaUnsE("map key of type " + ti), "?"
+			}
+			return "(EMapGet " + ca + " " + ci + " " + gaZeroValue(ta[len("map[string]"):]) + ")", ta[len("map[string]"):]
 		}
 		switch {
 		case ta == "string":
@@ -542,8 +588,20 @@ func (t *gaTr) expr(e ast.Expr) (string, string) {
 	case *ast.CallExpr:
 		return t.call(x)
 	case *ast.CompositeLit:
-		if ty := gaTypeStr(x.Type); strings.HasPrefix(ty, "set[") && len(x.Elts) == 0 {
-			return "(EMakeList (EInt 0) VUnset)", ty // empty set
+		if gaEmptyStruct(x) {
+			return "ENil", "struct{}"
+		}
+		if ty := gaTypeStr(x.Type); len(x.Elts) == 0 {
+			switch {
+			case strings.HasPrefix(ty, "set["):
+				return "(EMakeList (EInt 0) VUnset)", ty // empty set
+			case strings.HasPrefix(ty, "map[string]"):
+				return "EMapEmpty", ty
+			case ty == "[]uint8":
+				return "(EStr [])", ty
+			case strings.HasPrefix(ty, "[]"):
+				return "(EMakeList (EInt 0) VUnset)", ty
+			}
 		}
 		return gaUnsE("composite literal " + gaSrc(x)), "?"
 	}
@@ -648,7 +706,14 @@ func (t *gaTr) call(x *ast.CallExpr) (string, string) {
 			}
 			return gaUnsE("append " + gaSrc(x)), "?"
 		case "make":
-			if len(x.Args) == 2 {
+			if len(x.Args) == 3 {
+				// make([]T, n, c): the capacity is not observable here; it must be an expression
+				// that cannot panic
+				if _, tc := t.expr(x.Args[2]); !gaIsInt(tc) && tc != "untyped" {
+					return gaUnsE("make " + gaSrc(x)), "?"
+				}
+			}
+			if len(x.Args) == 2 || len(x.Args) == 3 {
 				ty := gaTypeStr(x.Args[0])
 				cn, tn := t.expr(x.Args[1])
 				if _, ok := gaKind(tn); ok || tn == "untyped" {
@@ -750,6 +815,8 @@ func gaZeroValue(t string) string {
 		return "(VStr [])"
 	case strings.HasPrefix(t, "[]"):
 		return "(VList [])"
+	case t == "struct{}":
+		return "VNil"
 	}
 	return "VUnset"
 }
@@ -819,6 +886,13 @@ func (t *gaTr) lhs(e ast.Expr) (string, string) {
 		}
 	case *ast.IndexExpr:
 		if id, ok := x.X.(*ast.Ident); ok {
+			if v := t.lookup(id.Name); v != nil && strings.HasPrefix(v.typ, "map[string]") && v.idx >= t.nparams && t.frozen[v.idx] == 0 {
+				ck, tk := t.expr(x.Index)
+				if tk == "string" {
+					return fmt.Sprintf("(LMapSet %d (*%s*) %s)", v.idx, v.name, ck), v.typ[len("map[string]"):]
+				}
+				return "", ""
+			}
 			if v := t.lookup(id.Name); v != nil && strings.HasPrefix(v.typ, "[]") && t.frozen[v.idx] == 0 {
 				ci, ti := t.expr(x.Index)
 				if gaIsInt(ti) || ti == "untyped" {
@@ -831,6 +905,35 @@ func (t *gaTr) lhs(e ast.Expr) (string, string) {
 		}
 	}
 	return "", ""
+}
+
+func (t *gaTr) isIntSet(e ast.Expr) bool {
+	if ix, ok := e.(*ast.IndexExpr); ok {
+		if id, ok := ix.X.(*ast.Ident); ok {
+			if v := t.lookup(id.Name); v != nil && strings.HasPrefix(v.typ, "set[") {
+				return true
+			}
+		}
+	}
+	return false
+}
+
+// oracleOf: the oracle table entry for a call expression
+func (t *gaTr) oracleOf(call *ast.CallExpr) *gaOracle {
+	sel, ok := call.Fun.(*ast.SelectorExpr)
+	if !ok {
+		return nil
+	}
+	p, ok := t.importPathOf(sel.X)
+	if !ok {
+		return nil
+	}
+	for i := range gaOracles {
+		if gaOracles[i].importPath == p && gaOracles[i].name == sel.Sel.Name {
+			return &gaOracles[i]
+		}
+	}
+	return nil
 }
 
 func (t *gaTr) assignable(lt, rt string) bool {
@@ -866,6 +969,12 @@ func (t *gaTr) assign(s *ast.AssignStmt) string {
 			if b, ok := s.Lhs[0].(*ast.Ident); ok && b.Name == "_" {
 				var cm, tm, ck, tk string
 				pre := t.withPre(func() { cm, tm = t.expr(ix.X); ck, tk = t.expr(ix.Index) })
+				if strings.HasPrefix(tm, "map[string]") && tk == "string" {
+					ls, ok := t.targets(&ast.AssignStmt{Lhs: s.Lhs[1:], Tok: s.Tok, Rhs: s.Rhs}, []string{"bool"})
+					if ok {
+						return gaSeq(append(pre, "(SAssign "+gaList(ls)+" [(EMapHas "+cm+" "+ck+")])"))
+					}
+				}
 				if strings.HasPrefix(tm, "set[") && (tk == tm[4:len(tm)-1] || tk == "untyped") {
 					ls, ok := t.targets(&ast.AssignStmt{Lhs: s.Lhs[1:], Tok: s.Tok, Rhs: s.Rhs}, []string{"bool"})
 					if ok {
@@ -876,7 +985,7 @@ func (t *gaTr) assign(s *ast.AssignStmt) string {
 			}
 		}
 	}
-	if s.Tok == token.ASSIGN && len(s.Lhs) == 1 && len(s.Rhs) == 1 && gaEmptyStruct(s.Rhs[0]) {
+	if s.Tok == token.ASSIGN && len(s.Lhs) == 1 && len(s.Rhs) == 1 && gaEmptyStruct(s.Rhs[0]) && t.isIntSet(s.Lhs[0]) {
 		if ix, ok := s.Lhs[0].(*ast.IndexExpr); ok {
 			if id, ok := ix.X.(*ast.Ident); ok {
 				if v := t.lookup(id.Name); v != nil && strings.HasPrefix(v.typ, "set[") && v.idx >= t.nparams {
@@ -895,6 +1004,27 @@ func (t *gaTr) assign(s *ast.AssignStmt) string {
 		call, ok := s.Rhs[0].(*ast.CallExpr)
 		if !ok {
 			return gaUnsS("multi-value assignment " + gaSrc(s))
+		}
+		if o := t.oracleOf(call); o != nil && len(o.results) == len(s.Lhs) && len(o.params) == len(call.Args) {
+			args := []string{}
+			bad := false
+			pre := t.withPre(func() {
+				for i, a := range call.Args {
+					c, ty := t.expr(a)
+					if ty != o.params[i] {
+						bad = true
+					}
+					if o.params[i] != "objects.Store" { // the store itself is what the oracle stands for
+						args = append(args, c)
+					}
+				}
+			})
+			ls, ok := t.targets(s, o.results)
+			if bad || !ok {
+				return gaUnsS("oracle call " + gaSrc(s))
+			}
+			name := filepath.Base(o.importPath) + "." + o.name
+			return gaSeq(append(pre, fmt.Sprintf("(SOracle %s %s %s)", gaList(ls), gaCoqString(name), gaList(args))))
 		}
 		k, ok := t.calleeKey(call.Fun)
 		if !ok || len(gaSigs[k].results) != len(s.Lhs) {
@@ -1330,7 +1460,7 @@ func goastEmit(repoRoot, outPath string) {
 		}
 		entries = append(entries, fmt.Sprintf("(%s, go_%s)", gaCoqString(pkg+"."+k.name), k.name))
 	}
-	sb.WriteString("Definition go_prog : prog :=\n  [" + strings.Join(entries, ";\n   ") + "].\n")
+	sb.WriteString("Definition go_prog : prog :=\n  {| p_oracle := no_oracle; p_funcs :=\n  [" + strings.Join(entries, ";\n   ") + "] |}.\n")
 	old, err := os.ReadFile(outPath)
 	if err == nil && string(old) == sb.String() {
 		return
